@@ -119,3 +119,59 @@ pub fn show_case(c: &ProgCase) -> String {
         c.flags
     )
 }
+
+/// A dialect identical to ChiaDialect(F) except that it knows no softfork
+/// extension and treats the two 4-byte secp opcodes as unknown operators.
+pub struct Hiding {
+    pub inner: ChiaDialect,
+}
+
+impl Hiding {
+    pub fn new(bits: u32) -> Self {
+        Hiding { inner: ChiaDialect::new(flags(bits)) }
+    }
+}
+
+impl Dialect for Hiding {
+    fn quote_kw(&self) -> u32 {
+        self.inner.quote_kw()
+    }
+    fn apply_kw(&self) -> u32 {
+        self.inner.apply_kw()
+    }
+    fn softfork_kw(&self) -> u32 {
+        self.inner.softfork_kw()
+    }
+    fn softfork_extension(&self, _ext: u32) -> OperatorSet {
+        OperatorSet::Default
+    }
+    fn flags(&self) -> ClvmFlags {
+        self.inner.flags()
+    }
+    fn gc_candidate(&self, a: &Allocator, op: NodePtr) -> bool {
+        self.inner.gc_candidate(a, op)
+    }
+    fn op(&self, a: &mut Allocator, op: NodePtr, args: NodePtr, max_cost: Cost, ext: OperatorSet) -> Response {
+        if a.atom_len(op) == 4 {
+            let b = a.atom(op);
+            if b.as_ref() == [0x13, 0xd6, 0x1f, 0x00] || b.as_ref() == [0x1c, 0x3a, 0x8f, 0x00] {
+                return clvmr::more_ops::op_unknown(a, op, args, max_cost, self.inner.flags());
+            }
+        }
+        self.inner.op(a, op, args, max_cost, ext)
+    }
+    fn allow_unknown_ops(&self) -> bool {
+        self.inner.allow_unknown_ops()
+    }
+}
+
+/// run with the hiding dialect in a fresh allocator
+pub fn run_hiding(i: &mut Interner, prog: &Dag, env: &Dag, bits: u32, budget: u64) -> Option<RunRes> {
+    let mut a = Allocator::new();
+    let p = build(&mut a, prog).ok()?;
+    let e = build(&mut a, env).ok()?;
+    let d = Hiding::new(bits);
+    let r = guard(|| run_program(&mut a, &d, p, e, budget));
+    let out = to_out(&a, i, r);
+    Some(RunRes { out, counts: crate::util::counts(&a), exempt: false, known_guards: 0, ops: 0 })
+}
